@@ -18,9 +18,11 @@ CONSTANTS Names,
                     \*          second pop raised KeyError)
 
 VARIABLES ref, tgt, ins, outs, consts,      \* scenario
-          result, gin, gout, gconst, ginter, pc, why
-vars == <<ref, tgt, ins, outs, consts, result, gin, gout, gconst, ginter, pc, why>>
+          result, gin, gout, gconst, ginter, pc, why,
+          flat                               \* what get_all_tensor_results() / save() last returned (NoFlat before the first call)
+vars == <<ref, tgt, ins, outs, consts, result, gin, gout, gconst, ginter, pc, why, flat>>
 
+NoFlat == {"#not taken yet"}      \* (a set, like every other value of `flat`)
 \* converter normal form: inputs, outputs and constants are tensors of the reference subgraph;
 \* a constant is neither a signature input nor produced (so not an output)
 WellFormedScenario ==
@@ -32,7 +34,7 @@ Init == /\ ref \in SUBSET Names /\ tgt \in SUBSET Names
         /\ ins \in SUBSET Names /\ outs \in SUBSET Names /\ consts \in SUBSET Names
         /\ WellFormedScenario
         /\ result = ref \cap tgt
-        /\ gin = {} /\ gout = {} /\ gconst = {} /\ ginter = {} /\ pc = "inputs" /\ why = "none"
+        /\ gin = {} /\ gout = {} /\ gconst = {} /\ ginter = {} /\ pc = "inputs" /\ why = "none" /\ flat = NoFlat
 
 \* pop a whole group; KeyError as soon as one name is missing
 Pop(names, grp, nextpc, site) ==
@@ -40,14 +42,17 @@ Pop(names, grp, nextpc, site) ==
   THEN /\ result' = result \ names /\ grp' = names /\ pc' = nextpc /\ why' = why
   ELSE /\ pc' = "raised" /\ why' = site /\ UNCHANGED <<result, grp>>
 
-PopInputs == pc = "inputs" /\ Pop(ins, gin, "outputs", "keyerror_input") /\ UNCHANGED <<ref, tgt, ins, outs, consts, gout, gconst, ginter>>
+PopInputs == pc = "inputs" /\ Pop(ins, gin, "outputs", "keyerror_input") /\ UNCHANGED <<ref, tgt, ins, outs, consts, gout, gconst, ginter, flat>>
 OutsToFile == IF "inout" \in Fixes THEN outs \ ins ELSE outs
-PopOutputs == pc = "outputs" /\ Pop(OutsToFile, gout, "constants", "keyerror_output") /\ UNCHANGED <<ref, tgt, ins, outs, consts, gin, gconst, ginter>>
-PopConstants == pc = "constants" /\ Pop(consts, gconst, "rest", "keyerror_constant") /\ UNCHANGED <<ref, tgt, ins, outs, consts, gin, gout, ginter>>
+PopOutputs == pc = "outputs" /\ Pop(OutsToFile, gout, "constants", "keyerror_output") /\ UNCHANGED <<ref, tgt, ins, outs, consts, gin, gconst, ginter, flat>>
+PopConstants == pc = "constants" /\ Pop(consts, gconst, "rest", "keyerror_constant") /\ UNCHANGED <<ref, tgt, ins, outs, consts, gin, gout, ginter, flat>>
 Rest == /\ pc = "rest" /\ ginter' = result /\ result' = {} /\ pc' = "done"
-        /\ UNCHANGED <<ref, tgt, ins, outs, consts, gin, gout, gconst, why>>
+        /\ UNCHANGED <<ref, tgt, ins, outs, consts, gin, gout, gconst, why, flat>>
+\* get_all_tensor_results() / save() on the finished result: reads - the four groups stay as they are, any number of times
+Flatten == /\ pc = "done" /\ flat' = gin \cup gout \cup gconst \cup ginter
+           /\ UNCHANGED <<ref, tgt, ins, outs, consts, result, gin, gout, gconst, ginter, pc, why>>
 Stutter == pc \in {"done", "raised"} /\ UNCHANGED vars
-Next == PopInputs \/ PopOutputs \/ PopConstants \/ Rest \/ Stutter
+Next == PopInputs \/ PopOutputs \/ PopConstants \/ Rest \/ Flatten \/ Stutter
 Spec == Init /\ [][Next]_vars
 
 \* ------------------------------------------------------------------ C18 (structure)
@@ -57,6 +62,8 @@ PartitionOK == pc = "done" =>
   /\ \A i, j \in 1..4 : i # j => Groups[i] \cap Groups[j] = {}
   /\ gin \cup gout \cup gconst \cup ginter = ref \cap tgt
   /\ gin = ins /\ gout = outs \ ins /\ gconst = consts
+\* the flat view holds every compared tensor once; taking it changes nothing (PartitionOK keeps holding after Flatten)
+FlatOK == flat # NoFlat => flat = ref \cap tgt
 \* when does the partition exist at all: the API returns iff no pop fails; for a quantized version of the reference model
 \* (every reference tensor keeps its name) it always returns - also when an input is returned as an output
 QuantizedPair == ref \subseteq tgt
